@@ -1717,6 +1717,9 @@ def analyse(ctx, tu, label=''):
             inl = Inliner(tu, f, v, lambda g: tu.fn_file(g) in (RANGE_H, BOX_H, AFF_H) and
                           classify(tu, g, signature(tu, g), tu.fn_file(g))[0] is None)
             v.inl = inl
+            # range_t(lower, upper) stores its arguments in the fields of those names (R-C05-2 init-*): a local range whose fields
+            # are assigned one by one has the value range_t(<lower>, <upper>)
+            v.fields_of = lambda ty: (LO, HI) if (ty or '').startswith(('range_t<', 'box_t<')) else None
             v._body = inl.stmts(list(v.body()))
             fn(res, s, v)
         except Exception:
@@ -1734,7 +1737,7 @@ def analyse(ctx, tu, label=''):
         ks = keysig(s)
         counts[level] += 1
         decided = all(it[0] == 'ok' for it in res.items)
-        for hid in inl.used:
+        for hid in inl.used | v.lambdas:
             callers.append((hid, inst, decided))
         for status, rule, detail, kd in res.items:
             if status == 'ok':
